@@ -9,7 +9,9 @@ node-and-network model (DESIGN.md 3). This check
      in five seeded scenarios - (a) all honest and connected, (b) one node cut off and healed (goes
      through SYNCING), (c) delayed ballots + unreachable proposers (draws, next rounds), (d) one
      Byzantine equivocating member, (e) one honest node whose block production diverges at two heights
-     (must not save its block: C11) - and validates every recorded execution with spec/ISAACTrace.tla:
+     (must not save its block: C11), (x) members cut off for good and voted out by the others (real
+     SuffrageVoting, ballot stuck resolver, expel voteproofs, suffrage-confirm ballots, reduced suffrage)
+     - and validates every recorded execution with spec/ISAACTrace.tla:
      ISAAC's invariants on every state of the trace plus the guard of the ISAAC action each logged
      step stands for.
 Verdict keys: ISAAC:<invariant or guard>. Liveness (no progress inside the time budget) is never a
@@ -30,7 +32,11 @@ HARD = {
     "Save-height", "Save-agreed", "Save-processed",
     "Sync-height", "Sync-linked", "Sync-agreed",
     "INIT-prev", "INIT-prop", "ACCEPT-processed",
+    "SC-after-expel-vp", "Stuck-draw",
 }
+# soft classes: counted and sampled in the evidence, never a verdict (see check/isaac.md)
+#   Box-new     6 mismatches in 12 607 events of the thorough run of 2026-09-22: not promoted
+#   Handle-new  sound form (new, or already at the voteproof's point); soft until a thorough run is clean
 INVARIANTS = ["NoHonestEquivocation", "VoteproofAgreement", "ChainAgreement", "SavedOnlyAgreed", "ChainLinked",
               "OneProposalPerPoint", "OneProposalPerMaker", "LastMonotone"]
 
@@ -90,11 +96,16 @@ class Conv:
         kind = e.get("kind")
         if kind is None:
             return []
-        if kind == "init":
-            return [self.block(e["prev"]), self.propobj(e["prop"], e["h"], e["r"])]
+        fx = [sorted(e["fx"])] if e.get("fx") else []      # the members the fact's expel facts name
+        if kind in ("init", "init+expels", "sc"):
+            return [self.block(e["prev"]), self.propobj(e["prop"], e["h"], e["r"])] + fx
         if kind in ("accept", "notprocessed", "emptyoperations"):
-            return [self.propobj(e["prop"], e["h"], e["r"]), self.block(e["blk"])]
+            return [self.propobj(e["prop"], e["h"], e["r"]), self.block(e["blk"])] + fx
         raise core.MachineryError("fact kind %r is outside ISAAC.tla (no expels / suffrage confirm in this network): %r" % (kind, e))
+
+    @staticmethod
+    def stage(e):
+        return "SC" if e.get("kind") == "sc" else e["s"]
 
     def convert(self, evs):
         out = []
@@ -109,18 +120,24 @@ class Conv:
                 o.update(by=e.get("by", "?"), h=e["h"], r=e["r"], v=self.newprop(e), prev=self.block(e["prev"]))
                 o.pop("last", None)
             elif a == "Bcast":
-                o.update(h=e["h"], r=e["r"], s=e["s"], f=self.fact(e))
+                o.update(h=e["h"], r=e["r"], s=self.stage(e), f=self.fact(e))
                 if e.get("kind") in ("notprocessed", "emptyoperations"):
                     o["np"] = True
             elif a == "Vote":
-                o.update(h=e["h"], r=e["r"], s=e["s"], f=self.fact(e))
+                o.update(h=e["h"], r=e["r"], s=self.stage(e), f=self.fact(e))
                 o["from"] = e.get("from", "?")
                 if e.get("kind") in ("notprocessed", "emptyoperations"):
                     o["np"] = True
-            elif a in ("BoxVP", "Voteproof"):
-                if e.get("vpkind"):
+            elif a in ("BoxVP", "Voteproof", "StuckVP"):
+                if e.get("vpkind") not in (None, "expel", "stuck"):
                     raise core.MachineryError("voteproof kind %r is outside ISAAC.tla: %r" % (e["vpkind"], e))
-                o.update(h=e["h"], r=e["r"], s=e["s"], res=e["res"], f=self.fact(e))
+                o.update(h=e["h"], r=e["r"], s=self.stage(e), res=e["res"], f=self.fact(e))
+                if "nsuf" in e:
+                    o["nsuf"] = e["nsuf"]
+                if e.get("ex"):
+                    o["ex"] = sorted(e["ex"])
+                if e.get("vpkind") or e.get("kind") == "sc":
+                    o["xp"] = True
                 if a == "BoxVP":
                     o["src"] = e["src"]
             elif a == "Processed":
@@ -185,7 +202,13 @@ def judge(ctx, k, path, head, evs, tevs, ok, res, hw):
         rawev = evs[line - 1] if 0 < line <= len(evs) else None
         if cls not in HARD:
             ctx.extra.setdefault("soft_mismatches", {})
-            ctx.extra["soft_mismatches"][cls] = ctx.extra["soft_mismatches"].get(cls, 0) + 1
+            if (cls, line) not in seen:
+                seen.add((cls, line))
+                ctx.extra["soft_mismatches"][cls] = ctx.extra["soft_mismatches"].get(cls, 0) + 1
+                smp = ctx.extra.setdefault("soft_mismatch_samples", [])
+                if len(smp) < 12 and rawev:
+                    prev = [e for e in evs[max(0, line - 40):line - 1] if e.get("n") == rawev.get("n") and e["a"] in ("BoxVP", "Voteproof", "Switched", "Synced", "Saved")][-3:]
+                    smp.append({"class": cls, "run": what, "line": line, "event": rawev, "before": prev})
             continue
         if cls in seen:
             continue
@@ -194,9 +217,24 @@ def judge(ctx, k, path, head, evs, tevs, ok, res, hw):
             continue
         ctx.violation(cls, "%s: event %d %s is not a step of ISAAC.tla (guard %s)" % (what, line, json.dumps(rawev)[:300], cls),
                       {"run": what, "events": keep(), "line": line, "event": rawev, "tla_event": ev, "guard": cls})
+    # C04 expel-vp;tally(t,n)!=tally(100,n-k) seen in a real run: a box counted an expel voteproof MAJORITY with
+    # fewer votes than the n-k members the validators' recount demands
+    for i, e in enumerate(evs):
+        if e["a"] == "BoxVP" and e.get("src") == "count" and e.get("ex") and e.get("res") == "MAJORITY" \
+                and len(e.get("voters", [])) < e.get("nsuf", n) - len(e["ex"]):
+            ctx.violation("expel-vp;tally(t,n)!=tally(100,n-k)", "%s: event %d %s" % (what, i + 1, json.dumps(e)[:300]),
+                          {"run": what, "events": keep(), "line": i + 1, "event": e})
+            break
+    maxk = max([len(e.get("ex") or []) for e in evs if e["a"] in ("BoxVP", "StuckVP")] + [0])
     if res.violated and res.violated not in ("<postcondition>",):
         inv = res.violated
-        if nbyz <= f:
+        if inv in ("VoteproofAgreement", "ChainAgreement") and maxk > f and nbyz <= f:
+            # the known design finding of C03 in its composed form: more than f members expelled
+            m = re.findall(r"^/\\ l = (\d+)", res.out, re.M)
+            line = int(m[-1]) - 1 if m else None
+            ctx.violation("expel-voteproof;k>f", "%s: %s does not hold after event %s; a voteproof expels %d > f = %d members" % (
+                what, inv, line, maxk, f), {"run": what, "events": keep(), "line": line, "invariant": inv})
+        elif nbyz <= f:
             # the state index TLC stopped at = number of consumed events
             m = re.findall(r"^/\\ l = (\d+)", res.out, re.M)
             line = int(m[-1]) - 1 if m else None
@@ -233,16 +271,45 @@ def run(ctx):
         # 4 nodes with one Byzantine member: the exhaustive run does not finish, so random behaviours
         sim("ISAAC_mc_byz.cfg", 3000, 60, "ISAAC_mc_byz_simulation")
 
+    # 1b. expels and suffrage confirm: ISAACExpel.tla
+    def simx(cfg, num, depth, key):
+        r = ctx.tlc("ISAACExpel", cfg, args=["-simulate", "num=%d" % num, "-depth", depth, "-seed", ctx.seed],
+                    workers=6, timeout=1500, count=False)
+        m = re.findall(r"The number of states generated: (\d+)", r.out) or re.findall(r"(\d+) states checked", r.out)
+        ctx.extra[key] = {"states_checked": int(m[-1]) if m else 0}
+        if m:
+            ctx.states += int(m[-1])
+            ctx.transitions += int(m[-1])
+
+    ctx.tlc("ISAACExpel", "ISAACExpel_mc_small.cfg", timeout=600)          # 2 nodes, round 0: exhaustive, must hold
+    # the candidate properties are EXPECTED to fail: the model shows the recorded defects of the code (C03, C04).
+    # A candidate that holds means the model lost the defect (or the code was repaired and the model followed).
+    expected = {"ISAACExpel_c03.cfg": "ChainAgreementAnyExpel",
+                "ISAACExpel_c04.cfg": "EmittedRecountAccepted",
+                "ISAACExpel_c04b.cfg": "EmittedExpelsMatchFact"}
+    if ctx.tier == "quick":
+        expected = {"ISAACExpel_c03.cfg": "ChainAgreementAnyExpel"}
+    cands = {}
+    for cfg, inv in expected.items():
+        r = ctx.tlc("ISAACExpel", cfg, timeout=900, allow_violation=True)
+        cands[inv] = "violated as expected (%d distinct states)" % r.distinct if r.violated == inv else "NOT violated: %s" % r.violated
+        if r.violated != inv:
+            ctx.extra.setdefault("model_lost_known_defect", []).append(inv)
+    ctx.extra["expected_to_fail_candidates"] = cands
+    if ctx.tier != "quick":
+        simx("ISAACExpel_sim4.cfg", 2000, 70, "ISAACExpel_sim4_simulation")  # 4 nodes, one down, rounds 0..1
+        simx("ISAACExpel_mc_rounds.cfg", 3000, 80, "ISAACExpel_rounds_simulation")  # exhaustive: 3 644 208 states, 16 min
+
     # 2. real executions
     seed = ctx.seed
     if ctx.tier == "quick":
-        runs = [("a", seed), ("b", seed), ("c", seed), ("d", seed), ("e", seed)]
-        par = 5
+        runs = [("a", seed), ("b", seed), ("c", seed), ("d", seed), ("e", seed), ("x", seed)]
+        par = 6
     else:
         runs = []
         for j in range(6):
-            runs += [(sc, seed * 100 + j) for sc in "abcde"]
-        par = 5
+            runs += [(sc, seed * 100 + j) for sc in "abcdex"]
+        par = 6
     outdir = os.path.join(ctx.work, "runs")
     p = ctx.vh(["ISAAC", "batch", "--runs", ",".join("%s:%d" % r for r in runs), "--par", par, "--outdir", outdir],
                timeout=120 + 25 * len(runs))
@@ -269,7 +336,12 @@ def run(ctx):
                 "broken": sorted(n for n, v in states.items() if "BROKEN" in v),
                 "draws": sum(1 for e in evs if e["a"] == "BoxVP" and e["res"] == "DRAW" and e["src"] == "count"),
                 "learned": sum(1 for e in evs if e["a"] == "BoxVP" and e["src"] == "ballot"),
-                "byz_ballots": head.get("byzsent", 0), "tlc_states": res.distinct, "accepted": ok}
+                "byz_ballots": head.get("byzsent", 0), "tlc_states": res.distinct, "accepted": ok,
+                "cut": head.get("cut") or [],
+                "expel_voteproofs": sum(1 for e in evs if e["a"] == "BoxVP" and e.get("vpkind") == "expel" and e["src"] == "count"),
+                "stuck_voteproofs": sum(1 for e in evs if e["a"] == "StuckVP"),
+                "suffrage_confirm_ballots": sum(1 for e in evs if e["a"] == "Bcast" and e.get("kind") == "sc"),
+                "saved_with_expels": sum(1 for e in evs if e["a"] == "Saved" and e.get("ex"))}
         summaries.append(summ)
         if maxh >= 2:
             progressed += 1
@@ -289,10 +361,11 @@ def run(ctx):
     ctx.extra["liveness_not_reached_target"] = stalled
     ctx.extra["runs_through_syncing"] = sum(1 for s in summaries if s["syncing"])
     ctx.extra["runs_with_draws"] = sum(1 for s in summaries if s["draws"])
+    ctx.extra["runs_with_expel_saved"] = sum(1 for s in summaries if s["saved_with_expels"])
     ctx.exhaustive = False
     ctx.assumptions = [
-        "fixed suffrage, no expels, no suffrage-confirm, no handover, no ballot stuck resolver, no mimic ballots "
-        "(IsInSyncSourcePoolFunc = false): the part of the code ISAAC.tla models",
+        "scenarios a-e: fixed suffrage, no ballot stuck resolver; scenario x: real SuffrageVoting + ballot stuck resolver, "
+        "expels, suffrage confirm, next blocks with the reduced suffrage; never: handover, mimic ballots",
         "the block writer below the real DefaultProposalProcessor is a stub (manifest = function of proposal, previous "
         "manifest, height); transport (ballots, proposal requests, block maps) is in-process",
         "timing parameters are milliseconds instead of seconds; on a loaded machine more rounds draw (liveness only)",
